@@ -327,20 +327,32 @@ func writeSegment(ctx context.Context, w http.ResponseWriter, log *slog.Logger, 
 
 // calcStatusCode returns the configured status code for the segment or 0 if none.
 func calcStatusCode(cfg *ResponseConfig, a *asset, segmentPart string, nowMS int) (int, error) {
-	rep, _, err := findRepAndSegmentID(a, segmentPart)
-	if err != nil {
-		return 0, fmt.Errorf("findRepAndSegmentID: %w", err)
-	}
-
-	// segMeta is to be used for all look up. For audio it uses reference (video) track
-	segMeta, err := findSegMeta(a, cfg, segmentPart, nowMS)
-	if err != nil {
-		return 0, fmt.Errorf("findSegMeta: %w", err)
+	var repID string
+	var segMeta segMeta
+	if tsRepID, nrOrTime, ok := timeSubsMediaID(segmentPart); ok {
+		// Generated subtitle tracks are not in a.Reps. They follow the reference (video) segments
+		var err error
+		segMeta, err = a.getRefSegMeta(nrOrTime, cfg, nowMS)
+		if err != nil {
+			return 0, fmt.Errorf("getRefSegMeta: %w", err)
+		}
+		repID = tsRepID
+	} else {
+		rep, _, err := findRepAndSegmentID(a, segmentPart)
+		if err != nil {
+			return 0, fmt.Errorf("findRepAndSegmentID: %w", err)
+		}
+		// segMeta is to be used for all look up. For audio it uses reference (video) track
+		segMeta, err = findSegMeta(a, cfg, segmentPart, nowMS)
+		if err != nil {
+			return 0, fmt.Errorf("findSegMeta: %w", err)
+		}
+		repID = rep.ID
 	}
 	startTime := int(segMeta.newTime)
 	repTimescale := int(segMeta.timescale)
 	for _, ss := range cfg.SegStatusCodes {
-		if !repInReps(rep.ID, ss.Reps) {
+		if !repInReps(repID, ss.Reps) {
 			continue
 		}
 		// Then move to the reference track and relate to cycles
@@ -376,6 +388,26 @@ func firstSegIdxStartingAtOrAfter(a *asset, rep *RepData, t int) int {
 		}
 	}
 	return (nrWraps + 1) * wrapLen
+}
+
+// timeSubsMediaID recognizes a media segment of a generated subtitle track ("timestpp-en/17.m4s").
+func timeSubsMediaID(segmentPart string) (repID string, nrOrTime int, ok bool) {
+	for _, prefix := range []string{SUBS_STPP_PREFIX, SUBS_WVTT_PREFIX} {
+		lang, seg, ok := timeSubsSegmentParts(prefix, segmentPart)
+		if !ok {
+			continue
+		}
+		nrStr, ext, ok := strings.Cut(seg, ".")
+		if !ok || ext != "m4s" {
+			return "", 0, false
+		}
+		nr, err := strconv.Atoi(nrStr)
+		if err != nil {
+			return "", 0, false
+		}
+		return prefix + "-" + lang, nr, true
+	}
+	return "", 0, false
 }
 
 func findLastSegNr(cfg *ResponseConfig, a *asset, nowMS int, rep *RepData) int {
